@@ -24,7 +24,7 @@ def audit(root, label, info):
         want = mtm + float(F.loc[d1]) + carry - fees - spread
         got = float(V.loc[d1]) - float(V.loc[d0])
         if not np.isfinite(got) or abs(got - want) > 1e-6 * max(1.0, abs(float(V.loc[d0])), abs(want)):
-            bad("value-change-is-mtm-plus-flows-plus-carry-minus-costs", tree=label, date=str(d1.date()), moved=got, explained=want, mark_to_market=mtm, flows=float(F.loc[d1]), carry=carry, fees=fees, spreads=spread, **info)
+            bad("value-change-is-mtm-plus-flows-plus-carry-minus-costs", tree=label, date=str(d1.date()), moved=got, explained=want, mark_to_market=mtm, flows=float(F.loc[d1]), carry=carry, fees=fees, spread_paid=spread, **info)
             return
 class Flows(bt.Algo):
     def __init__(self, ser): super().__init__(); self.ser = ser
@@ -36,9 +36,9 @@ class LateTrade(bt.Algo):
     """a custom algo whose last action of the day is a trade with update=False (nothing refreshes the root afterwards)"""
     def __init__(self, when, name, q): super().__init__(); self.when, self.name_, self.q = when, name, q
     def __call__(self, target):
-        if target.now in self.when: target[self.name_].transact(self.q, update=False)
+        if target.now in self.when and self.name_ in target.children: target[self.name_].transact(self.q, update=False)         # (a name never selected so far does not exist yet)
         return True
-FEES = [None, lambda q, p: abs(q) * 0.01, lambda q, p: abs(q) * p * 0.001, lambda q, p: 2.0 if q != 0 else 0.0]
+FEES = [None, lambda q, p: abs(q) * 0.01, lambda q, p: abs(q) * p * 0.001, lambda q, p: 2.0 if q != 0 else 0.0, lambda q, p: q * p * 0.0005]       # the last one is signed: a rebate on sells
 for it in range(N):
     n = int(rs.randint(12, 30)); idx = pd.bdate_range("2021-03-01", periods=n)
     fk = int(rs.randint(len(FEES))); intpos = bool(rs.randint(2)); spread_on = bool(rs.randint(2))
@@ -47,7 +47,7 @@ for it in range(N):
     flows = pd.Series(np.where(rs.rand(n) < 0.2, rs.choice([5e4, -2e4, 1e5], size=n), 0.0), index=idx)
     sub = Strategy("sub", [A.RunWeekly(), A.SelectAll(), A.WeighRandomly(), A.Rebalance()], children=["a", "b"])
     late = set(idx[sorted(set(rs.randint(2, n, size=2)))])
-    top = Strategy("top", [Flows(flows), A.RunWeekly(), A.SelectThese(["sub", "c", "d"]), A.WeighRandomly(), A.Rebalance(), LateTrade(late, "d", float(rs.choice([5.0, -3.0])))], children=[sub, "c", "d"])
+    top = Strategy("top", [Flows(flows), A.RunWeekly(), A.SelectThese(["sub", "c", "d"]), A.SelectRandomly(n=int(rs.randint(2, 4))), A.WeighRandomly(), A.Rebalance(), LateTrade(late, "d", float(rs.choice([5.0, -3.0])))], children=[sub, "c", "d"])
     add = {"bidoffer": pd.DataFrame(rs.uniform(0.0, 0.4, size=(n, 4)), index=idx, columns=list("abcd"))} if spread_on else {}
     np.random.seed(SEED + it); import random; random.seed(SEED + it)
     t = bt.Backtest(top, data, integer_positions=intpos, commissions=FEES[fk], additional_data=add, progress_bar=False); t.run(); evals += 1
@@ -62,14 +62,17 @@ for it in range(N):
     kids = [CouponPayingSecurity("cp1", lazy_add=lazy), CouponPayingSecurity("cp2", lazy_add=lazy), FixedIncomeSecurity("fi"), HedgeSecurity("hg")]
     trades = {idx[int(k)]: (str(rs.choice(["cp1", "cp2", "fi", "hg"])), float(rs.choice([-1, 1]) * rs.randint(1, 30))) for k in sorted(set(rs.randint(1, n, size=int(rs.randint(3, 8)))))}
     trades = {d_: ((nm_, abs(q_)) if nm_ == "fi" else (nm_, q_)) for d_, (nm_, q_) in trades.items()}
+    trades[idx[2]] = ("hg", 7.0); trades[idx[n - 2]] = ("hg", None)      # the hedge is opened and, late in the run, closed outright (None): a weightless security that goes flat
     trades[idx[1]] = ("fi", 50.0)         # a standing notional: an index on a zero base is ill-formed input (C10), not what is audited here
     class Trader(bt.Algo):
         def __call__(self, target):
             if target.now in trades:
-                nm, q = trades[target.now]; target.transact(q, nm)
+                nm, q = trades[target.now]
+                if q is None: target.close(nm)
+                else: target.transact(q, nm)
             return True
     fis = FixedIncomeStrategy("fis", [Trader()], children=kids)
-    t2 = bt.Backtest(fis, px, integer_positions=False, commissions=FEES[fk], additional_data={"coupons": coup, "cost_long": cl, "cost_short": cs}, initial_capital=float(rs.choice([0.0, 1e5])), progress_bar=False); t2.run(); evals += 1
+    t2 = bt.Backtest(fis, px, integer_positions=False, commissions=FEES[fk], additional_data=dict({"coupons": coup, "cost_long": cl, "cost_short": cs}, **({"bidoffer": pd.DataFrame(rs.uniform(0.0, 0.4, size=(n, 4)), index=idx, columns=list(px.columns))} if spread_on else {})), initial_capital=float(rs.choice([0.0, 1e5])), progress_bar=False); t2.run(); evals += 1
     distinct.add(("fi", fk, lazy))
     audit(t2.strategy, "fixed-income tree (coupons, holding costs, hedge)", dict(fee=fk, lazy_children=lazy))
     # ---- C: a hand-driven tree that visits only some of the dates of its data: between two visited dates the value moves by the mark-to-market
